@@ -289,6 +289,7 @@ class Interp(object):
         self.steps = 0
         self.merge = False      # if-merging into guarded list elements (set by contracts)
         self.numpy_floats = False   # division by zero / log(0) yield inf/nan values instead of raising
+        self.cuts = {}              # (function qualname, local name) -> hook(value, env) -> value
 
     # ---------------------------------------------------------- modules
     def module(self, name):
@@ -386,6 +387,10 @@ class Interp(object):
 
     def st_Assign(self, st, env):
         v = self.eval(st.value, env)
+        if self.cuts and env.func is not None and len(st.targets) == 1 and isinstance(st.targets[0], ast.Name):
+            hook = self.cuts.get((env.func.qualname, st.targets[0].id))
+            if hook is not None:
+                v = hook(v, env)
         for tgt in st.targets:
             self.assign(tgt, v, env)
 
